@@ -422,6 +422,9 @@ public:
         if (++readNo != failReadAt) return false;
         ev("db-read-error " + std::string(1, specKey(key)));
         readFailed = true;
+        // this engine never gets to see the stored result of that rule: as far as it knows the rule was never built
+        // (the persisted view is untouched)
+        mem[specKey(key)] = Sh();
         return true;
       };
       rec->shouldFail = [this](const DBRecord& r) {
